@@ -87,6 +87,34 @@ def gen_cases(rng, tier):
         cfg = '(defsrc a s d)\n(deflayer l0 %s y (one-shot 50 ralt))' % act
         h = rng.choice([['d30', 't3', 'u30'], ['d32', 't1', 'd30', 't20', 'u30', 't5', 'u32'], ['d30', 't1', 'u30', 't30', 'd31', 't5', 'u31']])
         cases.append({'id': 'c01-rptself-%d' % i, 'cfg': cfg, 'hist': h + ['t%d' % DRAIN, 'q', 't50'], 'sub': 'ksim', 'tags': {'mode': 'rpt-any-self-trigger'}})
+    # one key carrying two custom actions (multi merges them into one list; their releases are handled by one fold): every ordered
+    # pair out of the press/release custom actions, pressed and released alone
+    CUST = ['mlft', 'mrgt', 'mmid', '(movemouse-speed 50)', '(mwheel-up 20 120)', '(mwheel-left 20 120)', '(movemouse-up 5 1)',
+            '(movemouse-left 5 1)', '(movemouse-accel-down 5 100 1 5)', '(unmod a)', '(unshift b)', '(caps-word 100)', '(on-press tap-vkey v0)',
+            '(on-release tap-vkey v0)', '(layer-while-held l0)', 'x', 'lsft', '(unicode r)', '(push-msg hi)', '(sequence 50)']
+    pairs = [(a, b) for a in CUST for b in CUST if a != b]
+    rng.shuffle(pairs)
+    # (a mouse button followed by each other action always: its unclick is what the fold has to carry to the end)
+    first = [(a, b) for a in CUST[:3] for b in CUST if a != b]
+    pairs = first + [p for p in pairs if p not in first]
+    for i, (a, b) in enumerate(pairs[:(len(first) + 30 if tier == 'quick' else len(pairs))]):
+        cfg = '(defsrc a s)\n(deflayer l0 (multi %s %s) y)\n(defvirtualkeys v0 z)' % (a, b)
+        h = ['t3', 'd30', 't%d' % rng.choice([2, 40]), 'u30', 't5', 'd31', 't3', 'u31']
+        cases.append({'id': 'c01-pair-%d' % i, 'cfg': cfg, 'hist': h + ['t%d' % DRAIN, 'q', 't50'], 'sub': 'ksim', 'tags': {'mode': 'custom-pair'}})
+    # virtual keys carrying each kind of action, operated by press / release / tap / toggle (balanced): a toggled-off key is off
+    VACT = ['x', 'lsft', '(macro-repeat x 20)', '(macro-repeat-release-cancel y 20)', '(macro z 5 b)', '(layer-while-held l0)', 'mlft',
+            '(multi lctl (macro-repeat x 30))', '(one-shot 100 lalt)', '(tap-hold 0 50 x y)', '(mwheel-up 20 120)', 'S-x']
+    for i in range(40 if tier == 'quick' else 800):
+        va = rng.choice(VACT)
+        op = rng.choice(['toggle', 'toggle', 'press-release', 'tap'])
+        acts = {'toggle': ['(on-press toggle-vkey v0)', '(on-press toggle-vkey v0)'],
+                'press-release': ['(on-press press-vkey v0)', '(on-press release-vkey v0)'],
+                'tap': ['(on-press tap-vkey v0)', '(on-release tap-vkey v0)']}[op]
+        cfg = '(defsrc a s d)\n(deflayer l0 %s %s n)\n(defvirtualkeys v0 %s)' % (acts[0], acts[1], va)
+        h = ['t3']
+        for _ in range(rng.randint(1, 3)):       # on ... off, each time
+            h += ['d30', 't2', 'u30', 't%d' % rng.choice([5, 50, 200]), 'd31', 't2', 'u31', 't%d' % rng.choice([5, 100])]
+        cases.append({'id': 'c01-vkey-%d' % i, 'cfg': cfg, 'hist': h + ['t%d' % DRAIN, 'q', 't50'], 'sub': 'ksim', 'tags': {'mode': 'vkey-' + op}})
     # chords v2 (random typing over overlapping chords, min-idle windows, tap-hold / one-shot base keys) and zippychord:
     # the generators of C09 / C20, here followed by the long quiet tail and judged by the end-state oracle
     from checks import c09, c20
@@ -155,7 +183,7 @@ SPEC = {
     'id': 'C01', 'sub': 'ksim', 'gen_cases': gen_cases, 'nontrivial': trace_has_output, 'oracle': oracle,
     'rule': 'random configs over the whole action grammar (virtual keys only with balanced operations) x consistent histories in which every '
             'pressed key is released, followed by %d quiet ticks; overflow modes: bursts beyond the 32-slot queue, >64 states, >8 tap-holds, '
-            '>16 one-shots, >4 concurrent macros, mouse/scroll custom actions; chords v2 under random typing (min-idle windows), zippychord scenarios; non-trivial = output produced' % DRAIN,
+            '>16 one-shots, >4 concurrent macros, mouse/scroll custom actions; ordered pairs of custom actions on one key; virtual keys of every action kind switched on and off by toggle / press+release / tap; chords v2 under random typing (min-idle windows), zippychord scenarios; non-trivial = output produced' % DRAIN,
     'explanation': 'the kanata-level model is compared event by event; the oracle replays the real output and requires: nothing down, no '
                    'button down, no scroll/move state, silence in the tail, is_idle() true',
 }
